@@ -22,6 +22,18 @@ pub mod glib {
     // trusted: extending a Vec with a Vec appends its elements
     pub broadcast axiom fn axiom_iter_items_vec<T>(v: Vec<T>)
         ensures #[trigger] iter_items::<T, Vec<T>>(v) == v@;
+
+    // proved: two states at the same offset over the same remaining input are "moved by 0 bytes" (a skipped optional,
+    // a lookahead)
+    pub broadcast proof fn lemma_same_place<'a>(a: ParseState<'a>, b: ParseState<'a>)
+        requires a.idx() == b.idx(), a.rest() == b.rest(),
+        ensures #[trigger] a.moved_any_far(b, 0),
+    {
+        let x = a.bytes();
+        encode_utf8_valid_utf8(a.rest()@);
+        is_char_boundary_start_end_of_seq(x);
+        assert(x.subrange(0, x.len() as int) =~= x);
+    }
 }
 
 pub uninterp spec fn op_a(rest: Seq<u8>) -> Option<(u16, int)>;
